@@ -55,10 +55,11 @@ DoReload    == Reload /\ UNCHANGED last
 \* low-level node API: flag_outdated on any node; Node.update on a caching node whose inputs are up to date
 DoFlagOutdated == (\E n \in Node : FlagOutdated(n)) /\ UNCHANGED last
 DoNodeUpdate == (\E n \in Node : InputsUpToDate(n) /\ NodeUpdate(n)) /\ UNCHANGED last
+DoClearState == (\E n \in Node : ClearState(n)) /\ UNCHANGED last
 \* ... and without its precondition, as the code allows it (G8: Coherent is refuted)
 DoNodeUpdateAny == (\E n \in Node : NodeUpdate(n)) /\ UNCHANGED last
 Next == DoAssign \/ DoSetAuto \/ DoUpdateAll \/ DoTargets \/ DoSaveU \/ DoRestore \/ DoRebuild \/ DoReload
-        \/ DoFlagOutdated \/ DoNodeUpdate
+        \/ DoFlagOutdated \/ DoNodeUpdate \/ DoClearState
 NextAny == Next \/ DoNodeUpdateAny
 \* same next-state relation with the arguments visible in TLC's simulation traces
 \* `last` names the action and its arguments (history variable, constant in the exhaustive spec)
@@ -73,6 +74,7 @@ NextArgs ==
         \/ Reload /\ last' = <<"reload">>
         \/ \E n \in Node : FlagOutdated(n) /\ last' = <<"flag_outdated", n>>
         \/ \E n \in Node : InputsUpToDate(n) /\ NodeUpdate(n) /\ last' = <<"node_update", n>>
+        \/ \E n \in Node : ClearState(n) /\ last' = <<"clear_state", n>>
 
 \* post-conditions of the update actions as action properties
 FullUpdateCleanA == [][UpdateAll => FullUpdateClean']_<<gvars, svars, last>>
